@@ -17,11 +17,12 @@ CLAIMED = {
                 text='Proof of the master identity (assembled block system == C02 operator restricted to the relaxed block, for all values of the '
                      'unknowns) for the point smoother and the three line smoothers through the real blocks_to_amat, both sweep directions, '
                      'symbolic grid and block position; write-back map, PEC frame, affinity, bounds; core.solve end-to-end for n=6.'),
-    'C04': dict(ref='5 (C04)', tech=TECH, note=NOTE + ' WF(grid) (cell centres are node midpoints, coarse nodes every second node) and the RegularGridProlongator contract are assumed; prolongation() itself is covered by a bounded concrete check only.',
+    'C04': dict(ref='5 (C04)', tech=TECH, note=NOTE + ' WF(grid) (cell centres are node midpoints, coarse nodes every second node) and the RegularGridProlongator contract (bilinear hat interpolation; its body is covered by a bounded concrete check only) are assumed.',
                 text='Proof that core.restrict equals the transpose of the spec prolongation (piecewise constant x bilinear hats) on every interior coarse edge '
                      'for all seven patterns on arbitrarily stretched symbolic grids, given the contract of restrict_weights which is itself proved against the '
                      'linear hat functions; hat weights non-negative and summing to one; _restrict_model_parameters sums exactly the fine-cell children '
-                     '(slice algebra); restriction()/_get_restriction_weights wiring incl. anisotropy aliasing on all paths.'),
+                     '(slice algebra); restriction()/_get_restriction_weights wiring incl. anisotropy aliasing on all paths; prolongation() adds the interpolated slice of coarse index I '
+                     'to the interior of fine index 2I, 2I+1 (or I) of the same component and writes nothing else, for all seven patterns and any grid size.'),
     'C05': dict(ref='5 (C05)', tech=TECH, note=NOTE + ' Callee summaries (restriction halves exactly the pattern directions; residual/smoothing do not touch cycling state) are assumed here and discharged under C04/C01.',
                 text='Proof over all paths of _current_sc_dir/_current_lr_dir, _max_level (loop invariant with the spec function H), parameter '
                      'set-up, and multigrid (recursion invariant, V/W/F child-call structure, one generic fine-grid cycle): unbounded in shape, level and limits.'),
